@@ -734,7 +734,13 @@ impl VectoredIO {
             }
             match reader.read(buf) {
                 Ok(0) => break,
-                Ok(n) => total += n,
+                Ok(n) => {
+                    total += n;
+                    // A short read leaves a hole: the next buffer must not be touched
+                    if n < buf.len() {
+                        break;
+                    }
+                }
                 Err(e) => return if total > 0 { Ok(total) } else { Err(e) },
             }
         }
@@ -750,7 +756,13 @@ impl VectoredIO {
                 continue;
             }
             match writer.write(buf) {
-                Ok(n) => total += n,
+                Ok(n) => {
+                    total += n;
+                    // After a short write the rest of this buffer comes first
+                    if n < buf.len() {
+                        break;
+                    }
+                }
                 Err(e) => return if total > 0 { Ok(total) } else { Err(e) },
             }
         }
